@@ -44,6 +44,8 @@ def schedule(draw, tier="quick"):
                       typ=draw(st.sampled_from(["LIMIT", "LIMIT", "LIMIT", "LOC", "MOC"])))
         elif k in ("cancel", "cancel_part", "update", "replace", "fill", "fill_part", "lapse"):
             op["o"] = draw(st.integers(0, 5))
+            if k == "cancel_part":
+                op["frac"] = draw(st.sampled_from([0.25, 0.5, 0.6, 0.75]))
         elif k in ("task", "task_race"):
             op["k"] = draw(st.integers(0, 3))
             if k == "task_race":
@@ -127,7 +129,7 @@ class Driver:
                 if k == "cancel":
                     m.cancel_order(o)
                 elif k == "cancel_part":
-                    m.cancel_order(o, size_reduction=round(max(0.01, (o.size_remaining or 0.02) / 2), 2))
+                    m.cancel_order(o, size_reduction=round(max(0.01, (o.size_remaining or 0.02) * op.get("frac", 0.5)), 2))
                 elif k == "update":
                     m.update_order(o, "PERSIST" if getattr(o.order_type, "persistence_type", None) != "PERSIST" else "LAPSE")
                 else:
@@ -252,7 +254,9 @@ class Driver:
                 log = [x.name for x in o.status_log]
                 if cr and cr[-1].status == "SUCCESS" and cr[-1].instruction.size_reduction and log[-2:] == ["CANCELLING", "EXECUTION_COMPLETE"] \
                         and b.status == "EXECUTABLE":
-                    cause = "partial-cancel-equal-to-remainder-after-stream-update"
+                    last = [h for h in b.hist if h[0] == "partial-cancel"][-1:]
+                    # the recorded defect: the amount cancelled equals what is left afterwards (e.g. cancelling half)
+                    cause = "partial-cancel-equal-to-remainder-after-stream-update" if last and abs(last[0][1] - last[0][2]) < 1e-9 else "partial-cancel-other"
                 raise Violation("completeness-differs-from-exchange", (o.status.name, b.status, cause), "bet %s: local %s, exchange %s (log %s)" % (
                     b.bet_id, o.status.name, b.status, [x.name for x in o.status_log]), self.c)
             mine = (o.size_matched, o.size_remaining, o.size_cancelled, o.size_lapsed, o.size_voided)
